@@ -31,7 +31,10 @@ FIRST_TRY = {'C01': True, 'C02': True, 'C03': False, 'C04': True, 'C05': False, 
              'C18i': False, 'C19i': False, 'C20i': False,
              'C01j': True, 'C02j': True, 'C03j': False, 'C04j': False, 'C05j': True, 'C06j': True, 'C07j': True, 'C08j': False, 'C09j': True,
              'C10j': False, 'C11j': True, 'C12j': True, 'C13j': True, 'C14j': True, 'C15j': True, 'C16j': True, 'C17j': True,
-             'C18j': False, 'C19j': False, 'C20j': True}
+             'C18j': False, 'C19j': False, 'C20j': True,
+             'C01k': False, 'C02k': True, 'C03k': False, 'C04k': False, 'C05k': True, 'C06k': True, 'C07k': True, 'C08k': False, 'C09k': True,
+             'C10k': False, 'C11k': False, 'C12k': True, 'C13k': False, 'C14k': False, 'C15k': False, 'C16k': True, 'C17k': True,
+             'C18k': False, 'C19k': True, 'C20k': False}
 REJECTED = {
     'C18h': 'superseded: caught by C18 (send:Updates:over) until repair e4f0c24 moved the counting to write time; since then the '
             'change is consistent with the statistic and no longer a C18 violation',
@@ -103,6 +106,17 @@ STRENGTHEN = {
     'C10j': 'the connectionLost of an earlier session that the agent ended itself may arrive only after the next session is Established (late_lost): the running session must not notice',
     'C18j': 'scripted adaptive scenarios: the peer drops TCP in OpenSent / OpenConfirm / Established (or the agent ends the session) and is then unreachable for 400 s, statistic compared after every timer and every failed attempt',
     'C19j': 'histories may run on an iBGP session (the REST API adds the default LOCAL_PREF; an unchanged re-announcement is no change)',
+    'C01k': 'caught by C05 from the start; the C01 alphabet now has an OPEN whose My-AS field names the configured peer AS while its 4-octet-AS capability names another one (RFC 6793: the capability counts -> Bad Peer AS)',
+    'C03k': 'caught by C01 and C02 from the start; C03 itself now varies how the TCP connection of the session came about (first attempt refused; ConnectRetry time 10 s / 30 s so that the retry is made while the first attempt is still unanswered)',
+    'C04k': 'the agent\'s own configuration became a dimension (route-refresh kinds off, no capabilities at all, more families, rib + hold 9), as a Hypothesis dimension and as a grid over every known message type: what the agent advertises does not change which types and lengths are well framed',
+    'C08k': 'new kind out-of-range: a valid UPDATE in which one attribute value does not fit its field in the session\'s mode (AS above 65535 in AGGREGATOR / AS_PATH on a 2-octet-AS session, 2^32, -1, IPv6 address in a 4-octet field, ...): refused, or well formed. Found F061 (IPv6 aggregator address), fixed bd098cf; patch rebased onto that fix (original kept as patch.orig.diff, as for C06k)',
+    'C10k': 'caught by C04 from the start; C10 now also delivers the hostile message and everything behind it in ONE TCP segment and compares reports and state with one-message-per-segment delivery',
+    'C11k': 'new shards big-field+error: every attribute type / link-state TLV / prefix-SID TLV / link-state NLRI descriptor (sub-)TLV holding one 3700-octet value, alone and with an attribute the decoder refuses before or after it',
+    'C13k': 'the stop may follow a start request within the same reactor turn (REST start, no reactor turn, REST stop): nothing the start left queued may open a connection after the stop',
+    'C14k': 'NOTIFICATION: every Data length 0..4075 (messages of 21..4096 octets), two fill patterns',
+    'C15k': 'caught by C09 from the start; attribute permutations are now also decoded as on a 2-octet-AS session (AS_PATH / AGGREGATOR in 2-octet form next to AS4_PATH / AS4_AGGREGATOR)',
+    'C18k': 'caught by C04 from the start; in C18 a well-formed UPDATE may now arrive in 2, 3, 4, 9 (walks) or 200 (grid) TCP segments',
+    'C20k': 'rotation thresholds 0, 1 and 60 octets (every record rotates) and a clock coarser than the event rate (several readings per tick, so two rotations can compute the same file name)',
     'C16c': 'send cases now run with [bgp] rib on or off and with 0-2 earlier announcements on the same session whose prefixes the checked request may withdraw or re-announce (a withdraw list mixing announced and never-announced prefixes is the trigger)',
     'C19c': 'new operation: one peer UPDATE that carries IPv4 withdrawn routes together with a flowspec / VPNv4 MP_REACH or MP_UNREACH attribute; both parts must be applied (patch rebased onto the current tree because a later fix touched the same lines; original kept as patch.orig.diff)',
     'C20c': 'the peer address as configured became a dimension (IPv4, lower-case IPv6, upper-case IPv6) and a handler callback that raises is now a violation (event not logged) instead of a harness error',
@@ -133,7 +147,7 @@ def main():
     with open(os.path.join(HERE, 'seeded', 'INDEX.md'), 'w') as f:
         f.write('# Seeded changes (written by fresh sub-agents that saw only the property text)\n\n'
                 'Round 1: one change per property (C01..C20). Round 2 (ids ending in b): a second, different change for all twenty\n'
-                'properties. Rounds 3 to 9 (ids ending in c / d, e, f, g, h, i and j): further ones, the sub-agent being told what the earlier rounds had changed.\n'
+                'properties. Rounds 3 to 10 (ids ending in c / d, e, f, g, h, i, j and k): further ones, the sub-agent being told what the earlier rounds had changed.\n'
                 'Each directory holds patch.diff, the agent\'s demo.py, meta.json (incl. what the verifier ran) and\n'
                 'result.txt; `tools/try_seed.sh <id>` re-runs the confirmation on scratch copies of /repo.\n\n'
                 '| id | change | needs | caught on first run | final check result |\n|---|---|---|---|---|\n')
